@@ -118,6 +118,8 @@ func (c *manualCtx) end(how string) {
 	})
 }
 
+type callRecKey struct{}
+
 type callState struct {
 	sc      *callScenario
 	entered atomic.Bool
@@ -157,6 +159,7 @@ var (
 const (
 	procServer = "/verif.v1.Svc/ServerStream"
 	procClient = "/verif.v1.Svc/ClientStream"
+	procUnary  = "/verif.v1.Svc/Unary"
 )
 
 const handlerErrCode = connect.CodeFailedPrecondition
@@ -269,7 +272,30 @@ func callSetup() {
 		}
 		return connect.NewResponse(&BV{Value: []byte{1}}), nil
 	})
+	// unary: the library has read the request; the program returns one response, an error, or waits for its context
+	hu := connect.NewUnaryHandler(procUnary, func(ctx context.Context, r *connect.Request[BV]) (*connect.Response[BV], error) {
+		v, ok := callStates.Load(r.Header().Get("X-Verif-Sid"))
+		if !ok {
+			return nil, errors.New("verif: unknown scenario")
+		}
+		st := v.(*callState)
+		st.entered.Store(true)
+		defer close(st.exited)
+		if err := finish(ctx, st, st.sc.H); err != nil {
+			return nil, err
+		}
+		return connect.NewResponse(&BV{Value: []byte{1}}), nil
+	})
+	// (the connection of a unary call is not visible to interceptors: a verif hook hands it to the recorder that
+	//  travels in the call's context)
+	connect.VerifUnaryConnHook = func(ctx context.Context, conn connect.StreamingClientConn) connect.StreamingClientConn {
+		if rec, ok := ctx.Value(callRecKey{}).(*Rec); ok {
+			return &loggedConn{StreamingClientConn: conn, rec: rec}
+		}
+		return conn
+	}
 	mux := http.NewServeMux()
+	mux.Handle(procUnary, hu)
 	mux.Handle(e2eProc, h)
 	mux.Handle(procServer, hs)
 	mux.Handle(procClient, hc)
@@ -397,7 +423,7 @@ func runCall(raw json.RawMessage, seed int64, rec *Rec) {
 	callStates.Store(sid, st)
 	defer callStates.Delete(sid)
 	hsend := s.H.Hsend
-	if s.Kind == "client" && s.H.Hret != "ok" {
+	if (s.Kind == "client" || s.Kind == "unary") && s.H.Hret != "ok" {
 		hsend = 0 // a client-streaming handler's single response exists only if it returns successfully
 	}
 	rec.Add(E("reset", "tid", s.Tid, "sc", map[string]any{"msend": s.Msend, "mrecv": s.Mrecv, "hrecv": s.H.Hrecv,
@@ -415,6 +441,8 @@ func runCall(raw json.RawMessage, seed int64, rec *Rec) {
 		proc = procServer
 	case "client":
 		proc = procClient
+	case "unary":
+		proc = procUnary
 	}
 	httpClient := &http.Client{Transport: &countingRT{rt: srv.client.Transport, closed: &closed}}
 	copts := append(clientProtoOpts(s.Proto), connect.WithInterceptors(connLogger{rec: rec}))
@@ -429,14 +457,14 @@ func runCall(raw json.RawMessage, seed int64, rec *Rec) {
 	labels := pprof.Labels("verif_sid", sid)
 	stuck := false
 	didCloseResp := false
-	pprof.Do(mctx, labels, func(ctx context.Context) {
+	pprof.Do(context.WithValue(mctx, callRecKey{}, rec), labels, func(ctx context.Context) {
 		// pprof.Do derives a context: keep the manual one's semantics
 		lctx := &labelCtx{Context: ctx, m: mctx}
 		var bidi *connect.BidiStreamForClient[BV, BV]
 		var sstream *connect.ServerStreamForClient[BV]
 		var cstream *connect.ClientStreamForClient[BV, BV]
 		switch s.Kind {
-		case "server":
+		case "server", "unary":
 		case "client":
 			cstream = client.CallClientStream(lctx)
 			cstream.RequestHeader().Set("X-Verif-Sid", sid)
@@ -476,6 +504,12 @@ func runCall(raw json.RawMessage, seed int64, rec *Rec) {
 				var err error
 				sstream, err = client.CallServerStream(lctx, req)
 				rec.Add(E("api", "op", "css", "ok", err == nil, "code", codeOf(err)))
+			case "cu": // CallUnary: Send + CloseRequest + Receive + Receive + CloseResponse inside the library
+				didCloseResp = true
+				req := connect.NewRequest(&BV{Value: callPayload(&s, 1)})
+				req.Header().Set("X-Verif-Sid", sid)
+				_, err := client.CallUnary(lctx, req)
+				rec.Add(E("api", "op", "cu", "ok", err == nil, "code", codeOf(err)))
 			case "car": // CloseAndReceive: CloseRequest + Receive (+ Receive) + CloseResponse inside the library
 				didCloseResp = true
 				_, err := cstream.CloseAndReceive()
